@@ -8,6 +8,7 @@ import PynModel.Kernels.ValueFrom
 import PynModel.Kernels.Count
 import PynModel.Kernels.Process
 import PynModel.Core.ISet
+import PynModel.Core.Slice
 /-!
 # Line protocol driver: one operation per input line, one canonical output line.
 Arrays are comma-separated integers, `-` is the empty array.  Anything the driver cannot
@@ -152,6 +153,14 @@ def kernelStep (toks : List String) : String :=
     | some st, some en, some L, some step =>
       if h : st.size = en.size ∧ 0 < step then showPairs (overlapSplit st en h.1 L step h.2 0 #[])
       else "pre-fail"
+    | _, _, _, _ => "bad-op"
+  | ["getslice", t, mode, start, end_] =>
+    match parseArr t, mode.toNat?, start.toInt?, (if end_ == "-" then some none else end_.toInt?.map some) with
+    | some t, some mode, some start, some e =>
+      match getSlice t mode start e with
+      | .ok (a, b) => s!"{a}:{b}"
+      | .error .index => "ERR index"
+      | .error .value => "ERR value"
     | _, _, _, _ => "bad-op"
   | ["mkiset", st, en] =>
     match parseArr st, parseArr en with
